@@ -1,3 +1,220 @@
-(* C20 — placeholder while the proofs are being built *)
-From Coq Require Import NArith List.
-From V Require Import Base.U64 Base.Outcome Pool.PoolModel Pool.PoolSpec Pool.PoolProofs Pool.PoolRun.
+(* C20 — Operation pools keep what they are given and never panic.
+   Statements only; proofs live in Pool/PoolMaps.v, PoolBits.v, PoolAtt.v, PoolSync.v, PoolProofs.v.
+   Impl = Pool/PoolModel.v (eth2/pool/*.go + attestation_bits.go with the repairs of fixes/C20-*.diff),
+   Spec = Pool/PoolSpec.v (lists of added items).  Quantifier of every theorem: ALL operation sequences [ops].
+   [a_answers ops op o] / [k_answers] / [s_answers]: after the calls [ops] on a fresh pool, the call [op] answers [o]. *)
+From Coq Require Import NArith List Permutation.
+From V Require Import Base.U64 Base.Outcome Pool.PoolModel Pool.PoolSpec Pool.PoolProofs.
+Import ListNotations.
+Local Open Scope N_scope.
+
+(* ---------- refinement: the code answers what the Spec answers, on every sequence ---------- *)
+Theorem C20_attestations_refine : forall ops, Forall aop_wf ops ->
+  Forall2 aout_equiv (ap_run fixed ap_init ops) (as_run as_init ops).
+Proof. exact ap_refines. Qed.
+Print Assumptions C20_attestations_refine.
+Theorem C20_slashings_exits_refine : forall ops, kp_run kp_init ops = ks_run ks_init ops.
+Proof. exact kp_refines. Qed.
+Print Assumptions C20_slashings_exits_refine.
+Theorem C20_sync_refine : forall ops, Forall sop_ok ops -> sp_run fixed sp_init ops = ss_run ss_init ops.
+Proof. exact sp_refines. Qed.
+Print Assumptions C20_sync_refine.
+
+(* ---------- add_no_panic: every add/search/prune/reset/select returns (a value or an error) ---------- *)
+Theorem C20_add_no_panic_attestations : forall ops, Forall aop_wf ops -> ~ In ARPanic (ap_run fixed ap_init ops).
+Proof. exact add_no_panic_attestations. Qed.
+Print Assumptions C20_add_no_panic_attestations.
+Theorem C20_add_no_panic_slashings_exits : forall ops, ~ In KRPanic (kp_run kp_init ops).
+Proof. exact add_no_panic_slashings_exits. Qed.
+Print Assumptions C20_add_no_panic_slashings_exits.
+Theorem C20_add_no_panic_sync : forall ops, Forall sop_ok ops -> ~ In SRPanic (sp_run fixed sp_init ops).
+Proof. exact add_no_panic_sync. Qed.
+Print Assumptions C20_add_no_panic_sync.
+(* stores it or returns an error: a sync message/contribution is stored iff its slot is cur-1, cur or cur+1 (mod 2^64) *)
+Theorem C20_sync_add_stores_or_errors : forall s m,
+  snd (ss_add_msg s m) = in_window (ss_cur s) (sm_slot m) /\
+  (in_window (ss_cur s) (sm_slot m) = true -> In m (ss_msgs (fst (ss_add_msg s m)))) /\
+  (in_window (ss_cur s) (sm_slot m) = false -> fst (ss_add_msg s m) = s).
+Proof. exact ss_add_window. Qed.
+Print Assumptions C20_sync_add_stores_or_errors.
+
+(* ---------- add_dup_absorbed ---------- *)
+Theorem C20_add_dup_absorbed_aggregate : forall ops a comm, Forall aop_wf ops -> wf_bits (a_bits a) ->
+  In (a, comm) (as_kept (as_after ops)) ->
+  a_answers ops (AAdd a comm) (ARAdd true) /\ as_after (ops ++ [AAdd a comm]) = as_after ops.
+Proof. exact add_dup_absorbed_aggregate. Qed.
+Print Assumptions C20_add_dup_absorbed_aggregate.
+Theorem C20_add_dup_absorbed_single : forall ops v a comm, Forall aop_wf ops -> wf_bits (a_bits a) ->
+  In (v, a) (as_singles (as_after ops)) ->
+  count_true (decode (a_bits a)) = 1 -> length (decode (a_bits a)) = length comm ->
+  hd 0 (participants (decode (a_bits a)) comm) = v ->
+  a_answers ops (AAdd a comm) (ARAdd true) /\ as_after (ops ++ [AAdd a comm]) = as_after ops.
+Proof. exact add_dup_absorbed_single. Qed.
+Print Assumptions C20_add_dup_absorbed_single.
+Theorem C20_add_dup_refused_slashings_exits : forall ops x y, In y (ks_after ops) -> k_key y = k_key x ->
+  k_answers ops (KAdd x) (KRAdd false) /\ ks_after (ops ++ [KAdd x]) = ks_after ops.
+Proof. exact add_dup_refused_slashings_exits. Qed.
+Print Assumptions C20_add_dup_refused_slashings_exits.
+(* which accepted aggregates are stored: those bringing a participant that the stored ones for the same data lack *)
+Theorem C20_aggregate_stored : forall s a comm,
+  2 <= count_true (decode (a_bits a)) -> length (decode (a_bits a)) = length comm ->
+  snd (as_add s a comm) = true -> covered (same_data (a_data a) (as_kept s)) (a_bits a) = false ->
+  In (a, comm) (as_kept (fst (as_add s a comm))).
+Proof. exact as_agg_stored. Qed.
+Print Assumptions C20_aggregate_stored.
+
+(* ---------- add_conflict_reported ---------- *)
+Theorem C20_add_conflict_reported_single : forall ops v a' a comm, Forall aop_wf ops -> wf_bits (a_bits a) ->
+  In (v, a') (as_singles (as_after ops)) ->
+  count_true (decode (a_bits a)) = 1 -> length (decode (a_bits a)) = length comm ->
+  hd 0 (participants (decode (a_bits a)) comm) = v ->
+  tepoch a = tepoch a' -> a_data a <> a_data a' ->
+  a_answers ops (AAdd a comm) (ARAdd false) /\ as_after (ops ++ [AAdd a comm]) = as_after ops.
+Proof. exact add_conflict_reported_single. Qed.
+Print Assumptions C20_add_conflict_reported_single.
+Theorem C20_add_conflict_reported_aggregate : forall ops a comm, Forall aop_wf ops -> wf_bits (a_bits a) ->
+  2 <= count_true (decode (a_bits a)) -> length (decode (a_bits a)) = length comm ->
+  same_data (a_data a) (as_kept (as_after ops)) = [] ->
+  (forall v, In v (att_parts (a, comm)) -> voted (as_kept (as_after ops)) v (tepoch a) = true) ->
+  a_answers ops (AAdd a comm) (ARAdd false) /\ as_after (ops ++ [AAdd a comm]) = as_after ops.
+Proof. exact add_conflict_reported_aggregate. Qed.
+Print Assumptions C20_add_conflict_reported_aggregate.
+
+(* ---------- query_sound: every item returned was added, unaltered, and matches the filter ---------- *)
+Theorem C20_query_sound_attestations : forall ops oslot oidx, Forall aop_wf ops ->
+  exists l, a_answers ops (ASearch oslot oidx) (ARSearch l) /\
+            forall x, In x l -> q_match oslot oidx (a_data x) = true /\ exists comm, In (AAdd x comm) ops.
+Proof. exact query_sound_attestations. Qed.
+Print Assumptions C20_query_sound_attestations.
+Theorem C20_query_sound_slashings_exits : forall ops,
+  k_answers ops KAll (KRAll (ks_after ops)) /\ forall x, In x (ks_after ops) -> In x (k_added ops).
+Proof. exact query_sound_slashings_exits. Qed.
+Print Assumptions C20_query_sound_slashings_exits.
+Theorem C20_query_sound_sync : forall ops pos root members, Forall sop_ok ops -> (pos = 0 \/ pos = 1 \/ pos = 2) ->
+  s_answers ops (SSelect pos root members) (SRSelect (ss_select (ss_after ops) pos root members)) /\
+  forall m, In m (ss_select (ss_after ops) pos root members) ->
+    In m (s_added_msgs ops) /\ sm_slot m = pos_slot (ss_cur (ss_after ops)) pos /\ sm_root m = root /\ In (sm_val m) members.
+Proof. exact query_sound_sync. Qed.
+Print Assumptions C20_query_sound_sync.
+Theorem C20_query_sound_sync_contributions : forall ops pos root sub x, In x (ss_contribs (ss_after ops) pos root sub) ->
+  exists c, In c (s_added_cons ops) /\ x = (sc_bits c, sc_sig c) /\
+            sc_slot c = pos_slot (ss_cur (ss_after ops)) pos /\ sc_root c = root /\ sc_subnet c = sub.
+Proof. exact ss_contribs_sound. Qed.
+Print Assumptions C20_query_sound_sync_contributions.
+
+(* ---------- query_complete: stored aggregates, slashings and exits are returned until pruned ---------- *)
+Theorem C20_query_complete_attestations : forall pre a comm more oslot oidx, Forall aop_wf (pre ++ more) ->
+  In (a, comm) (as_kept (as_after pre)) -> not_pruned_by a more -> q_match oslot oidx (a_data a) = true ->
+  exists l, a_answers (pre ++ more) (ASearch oslot oidx) (ARSearch l) /\ In a l.
+Proof. exact query_complete_attestations. Qed.
+Print Assumptions C20_query_complete_attestations.
+Theorem C20_query_complete_slashings_exits : forall ops x more,
+  snd (ks_step (ks_after ops) (KAdd x)) = KRAdd true ->
+  k_answers (ops ++ KAdd x :: more) KAll (KRAll (ks_after (ops ++ KAdd x :: more))) /\ In x (ks_after (ops ++ KAdd x :: more)).
+Proof. exact query_complete_slashings_exits. Qed.
+Print Assumptions C20_query_complete_slashings_exits.
+Theorem C20_slashings_exits_one_per_key : forall ops, NoDup (map k_key (ks_after ops)).
+Proof. exact kp_keys_unique. Qed.
+Print Assumptions C20_slashings_exits_one_per_key.
+Theorem C20_query_complete_sync_contributions : forall s c,
+  in_window (ss_cur s) (sc_slot c) = true -> ss_cur s < two64 -> sc_slot c < two64 ->
+  exists pos, (pos = 0 \/ pos = 1 \/ pos = 2) /\
+    In (sc_bits c, sc_sig c) (ss_contribs (fst (ss_add_con s c)) pos (sc_root c) (sc_subnet c)).
+Proof. exact ss_contribs_complete. Qed.
+Print Assumptions C20_query_complete_sync_contributions.
+
+(* ---------- prune_exact: pruning removes exactly the items that can no longer be included ---------- *)
+Theorem C20_prune_exact_attestations : forall ops epoch oslot oidx, Forall aop_wf ops ->
+  exists l l', a_answers ops (ASearch oslot oidx) (ARSearch l) /\
+               a_answers (ops ++ [APrune epoch]) (ASearch oslot oidx) (ARSearch l') /\
+               Permutation l' (filter (fun x => includable epoch (tepoch x)) l).
+Proof. exact prune_exact_attestations. Qed.
+Print Assumptions C20_prune_exact_attestations.
+(* ... the same for the unaggregated attestations held, and "can be included" = current epoch <= target epoch + 1 *)
+Theorem C20_prune_exact_spec : forall s epoch oslot oidx,
+  as_search (as_prune s epoch) oslot oidx = filter (fun x => includable epoch (tepoch x)) (as_search s oslot oidx)
+  /\ singles_view (as_prune s epoch) = filter (fun r => includable epoch (snd (fst (fst r)))) (singles_view s).
+Proof. exact as_prune_exact. Qed.
+Print Assumptions C20_prune_exact_spec.
+Theorem C20_includable : forall epoch t, includable epoch t = true <-> epoch <= t + 1.
+Proof. exact includable_iff. Qed.
+Print Assumptions C20_includable.
+(* slot rotation of the sync pool: Reset(slot) keeps exactly what is still within slot-1 .. slot+1 *)
+Theorem C20_sync_reset_exact : forall s slot,
+  ss_cur (ss_reset s slot) = slot /\
+  (forall m, In m (ss_msgs (ss_reset s slot)) <-> In m (ss_msgs s) /\ in_window slot (sm_slot m) = true) /\
+  (forall c, In c (ss_cons (ss_reset s slot)) <-> In c (ss_cons s) /\ in_window slot (sc_slot c) = true) /\
+  ss_cons (ss_reset s slot) = filter (fun c => in_window slot (sc_slot c)) (ss_cons s).
+Proof. exact ss_reset_exact. Qed.
+Print Assumptions C20_sync_reset_exact.
+
+(* ---------- attestation bits: the byte-level helpers compute on the decoded flag list ---------- *)
+Theorem C20_bits_len : forall bs, bytes_ok bs -> bitlist_len bs = N.of_nat (length (decode bs)).
+Proof. exact bitlist_len_decode. Qed.
+Print Assumptions C20_bits_len.
+Theorem C20_bits_get : forall bs i, bytes_ok bs -> (i < length (decode bs))%nat -> get_bit bs (N.of_nat i) = Ok (flag bs i).
+Proof. exact get_bit_flag. Qed.
+Print Assumptions C20_bits_get.
+Theorem C20_bits_ones_count : forall bs, bytes_ok bs -> ones_count bs = count_true (decode bs).
+Proof. exact ones_count_decode. Qed.
+Print Assumptions C20_bits_ones_count.
+Theorem C20_bits_covers : forall a b, wf_bits a -> wf_bits b ->
+  att_covers a b = if Nat.eqb (length (decode a)) (length (decode b)) then Ok (imp2 (decode a) (decode b)) else Err.
+Proof. exact att_covers_decode. Qed.
+Print Assumptions C20_bits_covers.
+Theorem C20_bits_or : forall a b, wf_bits a -> wf_bits b -> length (decode a) = length (decode b) ->
+  exists c, bits_or a b = Ok c /\ wf_bits c /\ decode c = or2 (decode a) (decode b).
+Proof. exact bits_or_wf. Qed.
+Print Assumptions C20_bits_or.
+Theorem C20_bits_single_participant : forall bits comm v, bytes_ok bits -> length (decode bits) = length comm ->
+  participants (decode bits) comm = [v] -> single_participant bits comm = Ok v.
+Proof. exact single_participant_spec. Qed.
+Print Assumptions C20_bits_single_participant.
+
+(* ---------- defects of the pinned snapshot, as machine-checked witnesses (repaired by fixes/C20-*.diff) ---------- *)
+Theorem C20_aggpervalidator_nil_refuted : ap_run pinned ap_init_orig [AAdd w01 wcomm] = [ARPanic].
+Proof. exact aggpv_nil_refuted. Qed.
+Theorem C20_search_nil_aggregate_refuted : ap_run pinned ap_init_orig [AAdd w2 wcomm; ASearch None None] = [ARAdd true; ARPanic].
+Proof. exact search_nil_refuted. Qed.
+Theorem C20_participants_not_ored_refuted :
+  ap_run fx_no_or (ap_init_gen fx_no_or) [AAdd w01 wcomm; AAdd w23 wcomm; AAdd w23 wcomm; AAdd w12 wcomm; ASearch None None]
+    = [ARAdd true; ARAdd true; ARAdd true; ARAdd true; ARSearch [w01; w23; w23; w12]] /\
+  as_run as_init [AAdd w01 wcomm; AAdd w23 wcomm; AAdd w23 wcomm; AAdd w12 wcomm; ASearch None None]
+    = [ARAdd true; ARAdd true; ARAdd true; ARAdd true; ARSearch [w01; w23]].
+Proof. exact participants_not_ored_refuted. Qed.
+Theorem C20_committee_size_refuted :
+  ap_run fx_no_check (ap_init_gen fx_no_check) [AAdd w01 (wcomm ++ [30; 31; 32; 33; 34; 35])] = [ARPanic] /\
+  as_run as_init [AAdd w01 (wcomm ++ [30; 31; 32; 33; 34; 35])] = [ARAdd false].
+Proof. exact committee_size_refuted. Qed.
+Theorem C20_sync_nil_maps_refuted :
+  sp_run pinned sp_init_orig [SAddMsg (mkMsg 0 1 3 1)] = [SRPanic] /\
+  sp_run pinned sp_init_orig [SReset 0; SAddMsg (mkMsg 0 1 3 1)] = [SRReset; SRPanic] /\
+  sp_run pinned sp_init_orig [SAddCon (mkCon max64 1 2 [3] 1)] = [SRPanic] /\
+  ss_run ss_init [SAddMsg (mkMsg 0 1 3 1)] = [SRAdd true].
+Proof. exact sync_nil_maps_refuted. Qed.
+Theorem C20_select_nil_refuted :
+  sp_run fx_no_select (sp_init_gen fx_no_select) [SReset 7; SAddMsg (mkMsg 7 1 3 1); SSelect 1 1 [3; 4]] = [SRReset; SRAdd true; SRPanic] /\
+  ss_run ss_init [SReset 7; SAddMsg (mkMsg 7 1 3 1); SSelect 1 1 [3; 4]] = [SRReset; SRAdd true; SRSelect [mkMsg 7 1 3 1]].
+Proof. exact select_nil_refuted. Qed.
+Theorem C20_reset_skip_refuted :
+  sp_run fx_no_skip (sp_init_gen fx_no_skip) [SReset 7; SAddMsg (mkMsg 8 1 3 1); SReset 9; SSelect 0 1 [3]]
+    = [SRReset; SRAdd true; SRReset; SRSelect []] /\
+  ss_run ss_init [SReset 7; SAddMsg (mkMsg 8 1 3 1); SReset 9; SSelect 0 1 [3]]
+    = [SRReset; SRAdd true; SRReset; SRSelect [mkMsg 8 1 3 1]].
+Proof. exact reset_skip_refuted. Qed.
+
+(* ---------- non-vacuity: the hypotheses are met by non-trivial sequences (repaired model, evaluated) ---------- *)
+Example C20_nonvacuous :
+  Forall aop_wf [AAdd w01 wcomm; AAdd w23 wcomm; AAdd w23 wcomm; AAdd w12 wcomm; AAdd w2 wcomm; ASearch (Some 9) None; APrune 3; ASearch None None] /\
+  ap_run fixed ap_init [AAdd w01 wcomm; AAdd w23 wcomm; AAdd w23 wcomm; AAdd w12 wcomm; AAdd w2 wcomm; ASearch (Some 9) None; APrune 3; ASearch None None]
+    = [ARAdd true; ARAdd true; ARAdd true; ARAdd true; ARAdd true; ARSearch [w01; w23]; ARPrune; ARSearch []] /\
+  In (w01, wcomm) (as_kept (as_after [AAdd w01 wcomm; AAdd w23 wcomm])) /\
+  In (22, w2) (as_singles (as_after [AAdd w2 wcomm])) /\
+  Forall sop_ok [SReset 7; SAddMsg (mkMsg 8 1 3 1); SAddMsg (mkMsg 5 1 3 2); SReset 9; SSelect 0 1 [3; 4]] /\
+  sp_run fixed sp_init [SReset 7; SAddMsg (mkMsg 8 1 3 1); SAddMsg (mkMsg 5 1 3 2); SReset 9; SSelect 0 1 [3; 4]]
+    = [SRReset; SRAdd true; SRAdd false; SRReset; SRSelect [mkMsg 8 1 3 1]] /\
+  kp_run kp_init [KAdd (mkK 1 7); KAdd (mkK 2 7); KAdd (mkK 3 8); KAll] = [KRAdd true; KRAdd false; KRAdd true; KRAll [mkK 1 7; mkK 3 8]].
+Proof.
+  split; [repeat constructor|]. split; [vm_compute; reflexivity|]. split; [vm_compute; tauto|]. split; [vm_compute; tauto|].
+  split; [repeat constructor; vm_compute; auto|]. split; vm_compute; reflexivity.
+Qed.
